@@ -95,6 +95,10 @@ impl<'a> IrEmitter<'a> {
                 };
                 Ok(lit.to_token_stream())
             }
+            // A literal such as `1e999` reads as infinity, which has no Rust literal spelling.
+            IrExprKind::Float(n) if n.is_nan() => Ok(quote! { f64::NAN }),
+            IrExprKind::Float(n) if n.is_infinite() && *n > 0.0 => Ok(quote! { f64::INFINITY }),
+            IrExprKind::Float(n) if n.is_infinite() => Ok(quote! { f64::NEG_INFINITY }),
             IrExprKind::Float(n) => Ok(quote! { #n }),
             IrExprKind::String(s) => Ok(quote! { #s }),
             IrExprKind::Bytes(bytes) => {
